@@ -1006,7 +1006,7 @@ func (t *Term) ref() string {
 	case OpConst:
 		return constStr(t.w, t.c)
 	case OpVar:
-		return "|" + t.name + "|"
+		return "|v!" + t.name + "|"
 	}
 	return fmt.Sprintf("t%d", t.id)
 }
